@@ -74,3 +74,51 @@ def effect_tag(e):
     if e.kind == 'xcall':
         return '%s.%s' % (e.client, e.method)
     return e.kind
+
+
+def std_string_of(t):
+    """t = soroban String x converted to an alloc String (to_std_string idiom) -> x"""
+    t = core(t)
+    if t[0] == 'call' and t[1].endswith('string::String::from_utf8'):
+        m = t[2][0]
+        if m[0] == 'mut' and m[1].endswith('soroban_sdk::String::copy_into_slice') and m[3]:
+            return core(m[3][0])
+    return None
+
+
+def sol_struct(t, name=None):
+    """t = abi_encode_params(<sol struct aggregate>) -> (struct name, fields dict)"""
+    t = core(t)
+    if t[0] == 'call':
+        m = re.search(r'<abi::(\w+) as alloy_sol_types::SolValue>::abi_encode_params', t[1])
+        if m and (name is None or m.group(1) == name):
+            f = fields_of(core(t[2][0]))
+            if f is not None:
+                return m.group(1), f
+    return None
+
+
+def opt_bytes(t):
+    """t = into_vec(Option<Bytes>) i.e. PHI{Vec::default() | Some?(x)} -> x ; or plain default -> 'EMPTY'"""
+    al = [core(a) for a in alts(t)]
+    xs = [a for a in al if not (a[0] == 'call' and a[1].endswith('Default>::default'))]
+    if not xs:
+        return 'EMPTY'
+    if len(xs) == 1 and len(al) == 2:
+        return xs[0]
+    return None
+
+
+def hub_payload(t):
+    """payload term -> dict(dest=..., inner=(struct name, fields)) if it is abi(SendToHub{dest, abi(inner)})"""
+    s = sol_struct(t, 'SendToHub')
+    if not s:
+        return None
+    f = s[1]
+    if variant_name(core(f.get('messageType'))) != 'SendToHub':
+        return None
+    dest = std_string_of(f.get('destination_chain'))
+    inner = sol_struct(f.get('message'))
+    if dest is None or inner is None:
+        return None
+    return dict(dest=dest, inner=inner)
